@@ -54,11 +54,32 @@ def c15_case(draw, tier):
         agg_names = {n for n, c in t.visible if c in t.agg_cols}  # (K03: the columns of an ungrouped summarize stay)
         names = [n for n in draw(st.permutations(["p", "q", "zz1", "zz2", "a", "b"])) if n not in agg_names][:k]
         items = [[n, expr(draw(st.sampled_from(["int", "float", "bool", "str"])))] for n in names]
+        grouped = bool(sc.vis_refs) and draw(st.integers(0, 2)) == 0
+        if grouped:
+            # grouped variant: one argument overwrites the grouping column, another one is an aggregate / window
+            # function that takes its partitioning from the enclosing group_by - in one call every argument sees the
+            # input table, and call by call the table must stay grouped by the (now hidden) old column
+            gref, gcid, _ = draw(st.sampled_from(sc.vis_refs))
+            gname = next(n for n, c in t.visible if c == gcid)
+            gp = g.emit({"out": g.new_var(), "verb": "group_by", "in": p, "cols": [gref], "add": False})
+            x = expr(draw(st.sampled_from(["int", "float"])), 1)
+            if gp is None or gname in agg_names or not any(nd[0] == "col" for nd in walk_expr(x)):
+                grouped = False
+            else:
+                p = gp
+                wfn = draw(st.sampled_from(["sum", "max", "min", "count"]))
+                items = [[gname, items[0][1]], ["zzw", ["fn", wfn, [x], {}]]] + [it for it in items[1:] if it[0] != gname][:1]
+                items = list(draw(st.permutations(items)))
+                g.classes.add("mutate_split_grouped")
         L = [{"out": "L1", "verb": "mutate", "in": p, "items": items}]
         prev = p
         for i, it in enumerate(items):
             R.append({"out": f"R{i + 1}", "verb": "mutate", "in": prev, "items": [it]})
             prev = f"R{i + 1}"
+        if grouped:
+            eq = "mutate_split_grouped"
+            L.append({"out": "L2", "verb": "ungroup", "in": "L1"})
+            R.append({"out": f"R{len(items) + 1}", "verb": "ungroup", "in": prev})
     elif eq == "filter_split":
         k = draw(st.integers(2, 3))
         preds = []
@@ -198,6 +219,9 @@ def c15_case(draw, tier):
         if not any(nd[0] == "col" for nd in walk_expr(x)):
             x = eg.leaf(f2)  # (a literal first argument of map / is_in is a scalar for Polars, DESIGN 4.15 a)
         vals = [lit_of(draw, f2, cfg.expr, typed_ok=False) if draw(st.booleans()) else expr(f2, 0) for _ in range(draw(st.integers(1, 3)))]
+        if draw(st.integers(0, 2)) == 0:
+            # a null among the values: rows matching no other value are null (not false), as with `x == None`
+            vals.insert(draw(st.integers(0, len(vals))), ["lit", None])
         a = ["fn", "is_in", [x] + vals, {}]
         b = ["fn", "eq", [x, vals[0]], {}]
         for v in vals[1:]:
